@@ -1,6 +1,56 @@
-"""Serialised builds (file locks): python3 -m tools.build coq [make targets...] | harness | runner | bin | all"""
+"""Serialised builds (file locks):
+  python3 -m tools.build coq [make targets...]   e.g. coq Properties/C05.vo
+  python3 -m tools.build harness <id>            harness/src/bin/<id>.rs -> build/target/release/<id>
+  python3 -m tools.build runner <id>             coq/Extract/ExC<NN>.v + runner/cmds_<id>.ml -> build/runner/<id>/tt-runner
+  python3 -m tools.build bin                     the real CLI binary from /repo -> build/target-repo/release/cargo-tauri-typegen"""
 import sys
 from tools import vlib
+
+def setup():
+    """MANIFEST.setup_cmd: warm every cache the claimed checks use (Coq .vo files of
+    each claimed property, extraction, runners, Rust drivers, the real binary).
+    The checks rebuild on demand anyway, so a failure here is reported and the
+    remaining parts are still built."""
+    import json, os
+    from concurrent.futures import ThreadPoolExecutor
+    man = json.load(open(os.path.join(vlib.VERIF, "MANIFEST.json")))
+    pids = sorted({c["property_id"] for c in man["checks"]})
+    failures = []
+
+    def rust():
+        try:
+            vlib.build_repo_bin()
+        except vlib.BuildError as e:
+            failures.append("bin: %s" % e)
+        for pid in pids:
+            if os.path.exists(os.path.join(vlib.VERIF, "harness", "src", "bin", pid.lower() + ".rs")):
+                try:
+                    vlib.build_harness(pid)
+                except vlib.BuildError as e:
+                    failures.append("harness %s: %s" % (pid, e))
+
+    def coq():
+        targets = []
+        for pid in pids:
+            targets.append("Properties/%s.vo" % pid)
+            if os.path.exists(os.path.join(vlib.COQ, "Extract", "Ex%s.v" % pid)):
+                targets.append("Extract/Ex%s.vo" % pid)
+        rc, out = vlib.coq_make(["-k"] + targets)
+        if rc != 0:
+            failures.append("coq: " + out[-3000:])
+        for pid in pids:
+            if os.path.exists(os.path.join(vlib.VERIF, "runner", "cmds_%s.ml" % pid.lower())):
+                try:
+                    vlib.build_runner(pid)
+                except vlib.BuildError as e:
+                    failures.append("runner %s: %s" % (pid, e))
+
+    with ThreadPoolExecutor(2) as ex:
+        list(ex.map(lambda f: f(), [rust, coq]))
+    for f in failures:
+        print("SETUP-PROBLEM:", f)
+    print("setup-ok" if not failures else "setup-done-with-problems")
+
 
 def main():
     what = sys.argv[1] if len(sys.argv) > 1 else "all"
@@ -8,16 +58,18 @@ def main():
         rc, out = vlib.coq_make(sys.argv[2:] or None)
         print(out[-6000:])
         sys.exit(rc)
-    if what in ("harness", "all"):
-        vlib.build_harness()
-    if what in ("runner", "all"):
-        vlib.build_runner()
-    if what in ("bin", "all"):
+    arg = sys.argv[2] if len(sys.argv) > 2 else None
+    if what == "harness":
+        vlib.build_harness(arg)
+    elif what == "runner":
+        vlib.build_runner(arg)
+    elif what == "bin":
         vlib.build_repo_bin()
-    if what == "all":
-        rc, out = vlib.coq_make(None)
-        print(out[-3000:])
-        sys.exit(rc)
+    elif what == "setup":
+        setup()
+    else:
+        print(__doc__)
+        sys.exit(2)
 
 if __name__ == "__main__":
     try:
